@@ -535,7 +535,7 @@ var clauseKeywords = map[string]bool{
 	"func": true, "cases": true, "requires": true, "ensures": true, "modifies": true,
 	"panics": true, "pure": true, "loop": true, "invariant": true, "decreases": true,
 	"assert": true, "use": true, "let": true, "mode": true, "trusted": true, "assumes": true,
-	"classes": true, "property": true, "inline": true, "coarse": true, "assume": true, "reads": true, "wraps": true, "fuel": true, "unroll": true, "calls": true,
+	"classes": true, "property": true, "inline": true, "coarse": true, "assume": true, "reads": true, "wraps": true, "fuel": true, "unroll": true, "calls": true, "havoc": true, "ghost": true,
 }
 
 type rawLine struct {
@@ -654,6 +654,11 @@ func parseContractLines(lines []rawLine, pkg string) ([]*FuncContract, error) {
 			for _, x := range strings.Split(strings.Trim(strings.TrimSpace(parts[1]), "{}"), ",") {
 				cur.Calls[strings.TrimSpace(parts[0])] = append(cur.Calls[strings.TrimSpace(parts[0])], strings.TrimSpace(x))
 			}
+		case "ghost":
+			// ghost pos, readfailed, sent, added   — ghost kinds this function changes
+			for _, g := range strings.Split(rest, ",") {
+				cur.Ghost = append(cur.Ghost, strings.TrimSpace(g))
+			}
 		case "fuel":
 			fmt.Sscanf(rest, "%d", &cur.Fuel)
 		case "wraps":
@@ -725,6 +730,13 @@ func parseContractLines(lines []rawLine, pkg string) ([]*FuncContract, error) {
 			case "assumes":
 				curLoop.Assumes = append(curLoop.Assumes, c)
 			}
+		case "havoc":
+			// havoc <anchor>: x, y[*]   — effects of concurrently running goroutines become visible here (M1)
+			i := strings.Index(rest, ":")
+			if i < 0 {
+				return nil, fmt.Errorf("%s:%d: havoc needs '<anchor>: targets'", l.file, l.line)
+			}
+			cur.Anchors = append(cur.Anchors, AnchorClause{Kind: "havoc", Anchor: strings.TrimSpace(rest[:i]), Clause: Clause{Src: strings.TrimSpace(rest[i+1:]), File: l.file, Line: l.line}})
 		case "assert", "use", "assume":
 			// assert <anchor>: E
 			i := strings.Index(rest, ":")
